@@ -304,6 +304,43 @@ func runC03(c *ctx, r *Report) error {
 		}
 		r.Rule += "; every scalar value of the clean workflows is the position of a node of the AST actionlint.Parse returns (reflection walk), as written and with each mapping's last pair moved to the front"
 	}
+	// AL.Props.C03Parse (no_value_scalar_dropped) leaves out three positions at which a scalar with an EXPLICIT YAML tag and a
+	// text is dropped by the parser without a diagnostic (finding_bool_tagged_text, finding_call_input_null_default,
+	// finding_null_tagged_mapping): the same three inputs on the implementation, next to a control without the tag
+	for _, tc := range []struct{ key, with, without string; line int }{
+		{"tagged-scalar-unchecked:bool", "on: push\njobs:\n  j:\n    runs-on: ubuntu-latest\n    steps:\n      - run: echo\n        continue-on-error: !!bool \"${{ x\"\n",
+			"on: push\njobs:\n  j:\n    runs-on: ubuntu-latest\n    steps:\n      - run: echo\n        continue-on-error: \"${{ x\"\n", 7},
+		{"tagged-scalar-unchecked:null-default", "on:\n  workflow_call:\n    inputs:\n      a:\n        type: string\n        default: !!null \"${{ x\"\njobs:\n  j:\n    runs-on: ubuntu-latest\n    steps:\n      - run: echo\n",
+			"on:\n  workflow_call:\n    inputs:\n      a:\n        type: string\n        default: \"${{ x\"\njobs:\n  j:\n    runs-on: ubuntu-latest\n    steps:\n      - run: echo\n", 6},
+		{"tagged-scalar-unchecked:null-mapping", "on:\n  push: !!null \"${{ x\"\njobs:\n  j:\n    runs-on: ubuntu-latest\n    steps:\n      - run: echo\n",
+			"on:\n  push: \"${{ x\"\njobs:\n  j:\n    runs-on: ubuntu-latest\n    steps:\n      - run: echo\n", 2},
+	} {
+		onLine := func(src string) (int, error) {
+			errs, err := lintSrc("t.yml", src)
+			n := 0
+			for _, e := range errs {
+				if e.Line == tc.line {
+					n++
+				}
+			}
+			return n, err
+		}
+		nw, err1 := onLine(tc.with)
+		nc, err2 := onLine(tc.without)
+		r.Evaluations += 2
+		if err1 != nil || err2 != nil {
+			r.Crashes = append(r.Crashes, Case{Op: "lint-tagged", Input: map[string]string{"yaml": tc.with}, Note: fmt.Sprint(err1, err2)})
+			continue
+		}
+		if nc == 0 {
+			r.finding("tagged-control-silent", "the control of a tagged-scalar probe (the same text without the tag) is not diagnosed on its line", Case{Op: "lint-tagged", Input: map[string]string{"yaml": tc.without}})
+		}
+		if nw == 0 {
+			r.finding(tc.key, "a malformed placeholder in a scalar with an explicit YAML tag is dropped by the parser: no diagnostic on its line (the same text without the tag is diagnosed)",
+				Case{Op: "lint-tagged", Input: map[string]string{"yaml": tc.with, "control": tc.without, "line": fmt.Sprint(tc.line)}})
+		}
+		r.hist(fmt.Sprintf("tagged-probe:%s:diagnosed=%v", tc.key, nw > 0))
+	}
 	// AL.Props.C03Step: in the model every key's value of a (script or action) step reaches the field named after the key in
 	// every key order; a step whose node lacks a value the model keeps has lost it on the way to the checker
 	nPS := 400
